@@ -25,7 +25,9 @@
    goroutine exited; (c) once cancelled, theorems A + B apply. *)
 From Coq Require Import List Arith Bool.
 Import ListNotations.
+From Coq Require Import String.
 From Trzsz Require Import Model.Proc Model.ProcFault Proofs.Proc Proofs.ProcFault Proofs.ProcInst Gen.Skel_pipeline.
+From Trzsz Require Import Model.ErrTell Proofs.ErrTell Gen.Skel_errtell Gen.Skel_errcallers.
 
 Definition terminates_after_cancel (N : net) : Prop :=
   forall D io_ret, io_assumptions io_ret true ->
@@ -149,6 +151,41 @@ Theorem C11_main_exit_cancels :
 Proof. exact main_exits_cancel. Qed.
 Print Assumptions C11_main_exit_cancels.
 
+(* ---- a side that can still talk tells its peer why ---- *)
+(* transfer.go clientError / serverError, interpreted from their REGENERATED skeletons
+   (Gen/Skel_errtell.v), for EVERY error class [e] (is it a *trzszError, its errType class, its
+   trace flag, is its text that of errStoppedAndDeleted) and environment [env] (the transfer's
+   stopAndDelete flag, did deleteCreatedFiles delete anything):
+   * the skeleton is fully understood, cleanInput comes first;
+   * the lines sent are exactly [et_client_sends e env] / [et_server_sends e env]: none when the
+     error IS the peer's EXIT / fail / FAIL line, otherwise one: `fail` with the deleted names
+     after a stop-and-delete that deleted something (client), else `FAIL` or `fail` by the
+     traceback flag;
+   * the server resets the terminal (serverExit) exactly once, last; the client never. *)
+Theorem C11_tells_peer : tells_peer_stmt errtell_preds errtell_clientError errtell_serverError.
+Proof. exact tells_peer. Qed.
+Print Assumptions C11_tells_peer.
+
+Theorem C11_tells_peer_one_line : forall e env, et_victim e = false ->
+  (exists w n, et_sends (fst (et_run errtell_preds errtell_clientError e env)) = [ASend w n] /\ (w = WFail \/ w = WFAIL)) /\
+  (exists w, et_sends (fst (et_run errtell_preds errtell_serverError e env)) = [ASend w false] /\ (w = WFail \/ w = WFAIL)).
+Proof. exact not_victim_sends_one. Qed.
+Print Assumptions C11_tells_peer_one_line.
+
+Theorem C11_victim_sends_nothing : forall e env, et_victim e = true ->
+  et_sends (fst (et_run errtell_preds errtell_clientError e env)) = [] /\
+  et_sends (fst (et_run errtell_preds errtell_serverError e env)) = [].
+Proof. exact victim_sends_nothing. Qed.
+Print Assumptions C11_victim_sends_nothing.
+
+(* the callers: handleTrzsz's goroutine hands every non-nil result of downloadFiles /
+   uploadFiles and every recovered panic to clientError; the goroutines of TrzMain / TszMain
+   hand every non-nil result of recvFiles / sendFiles to serverError (their recover is deferred
+   in the function, not in the goroutine that runs the transfer) *)
+Theorem C11_error_callers : errtell_callers = expected_callers.
+Proof. exact callers_pinned. Qed.
+Print Assumptions C11_error_callers.
+
 (* ---- the hypotheses are satisfiable and the bound is concrete ---- *)
 Example C11_io_assumptions_sat : io_assumptions (fun k => match k with Unknown => false | _ => true end) true.
 Proof. repeat split; reflexivity. Qed.
@@ -186,3 +223,22 @@ Proof.
   - reflexivity.
   - reflexivity.
 Qed.
+
+(* a read timeout (simpleTrzszError: errType "", no traceback): both sides send `fail`; a panic
+   converted by the callers (errType "panic", traceback): `FAIL`; the peer's own fail line: nothing *)
+Example C11_tells_timeout :
+  let e := {| et_trz := true; et_typ := EtNone; et_trace := false; et_sad := false |} in
+  let v := {| et_flag := false; et_deleted := false |} in
+  fst (et_run errtell_preds errtell_clientError e v) = [AClean; ASend WFail false] /\
+  fst (et_run errtell_preds errtell_serverError e v) = [AClean; ASend WFail false; AExit false].
+Proof. vm_compute. split; reflexivity. Qed.
+Example C11_tells_panic :
+  let e := {| et_trz := true; et_typ := EtOther; et_trace := true; et_sad := false |} in
+  let v := {| et_flag := false; et_deleted := false |} in
+  fst (et_run errtell_preds errtell_clientError e v) = [AClean; ASend WFAIL false].
+Proof. vm_compute. reflexivity. Qed.
+Example C11_tells_stop_and_delete :
+  let e := {| et_trz := true; et_typ := EtNone; et_trace := false; et_sad := true |} in
+  let v := {| et_flag := true; et_deleted := true |} in
+  fst (et_run errtell_preds errtell_clientError e v) = [AClean; ADelete; ASend WFail true].
+Proof. vm_compute. reflexivity. Qed.
